@@ -47,7 +47,7 @@ import (
 
 func c20cases(tier string) int {
 	if tier == "thorough" {
-		return 250
+		return 160
 	}
 	return 32
 }
@@ -977,8 +977,8 @@ func init() {
 			"DataService.Create stamps the new bucket with the current year (wall clock) - not part of any verdict",
 		},
 		Cases:        c20cases,
-		Batch:        4,
-		BatchTimeout: 30 * time.Minute,
+		Batch:        2,
+		BatchTimeout: 45 * time.Minute,
 		Run:          c20run,
 		Need:         []string{"statements", "rows_compared", "projection_statements", "limit_statements", "insert_statements", "limit_metamorphic_comparisons"},
 		MinDistinct:  20,
